@@ -50,6 +50,17 @@ def treeEq : (d : Nat) → T d → T d → Bool
 
 def fTree (j : Json) (k : String) (d : Nat) : Except String (T d) := do parseTree d (← field j k)
 
+/-- Python's `range(s, e, step)` (empty for step 0) -/
+def pyRange (s e step : Int) : List Int :=
+  if step > 0 then
+    let n := ((e - s).toNat + step.toNat - 1) / step.toNat
+    (List.range n).map (fun (i : Nat) => s + Int.ofNat i * step)
+  else if step < 0 then
+    let st := (-step).toNat
+    let n := ((s - e).toNat + st - 1) / st
+    (List.range n).map (fun (i : Nat) => s + Int.ofNat i * step)
+  else []
+
 /-- optional position: -1 encodes "fresh default / none" -/
 def optPos (i : Int) : Option Nat := if i < 0 then none else some i.toNat
 def posJson : Option Nat → Json
